@@ -110,6 +110,20 @@ def build_chain(root, spec):
         path = os.path.join(path, nm)
         os.makedirs(path, exist_ok=True)
         dirs.append(path)
+    # things a "clever" discovery might take for the end of the tree: version-control
+    # markers and repository metadata mean nothing to the upward walk
+    for li, dp in enumerate(dirs):
+        m = (li + len(names)) % 4
+        if m == 1:
+            os.makedirs(os.path.join(dp, '.git'), exist_ok=True)
+        elif m == 2 and not os.path.lexists(os.path.join(dp, '.git')):
+            with open(os.path.join(dp, '.git'), 'w') as f:
+                f.write('gitdir: elsewhere\n')
+        elif m == 3:
+            os.makedirs(os.path.join(dp, 'profiles'), exist_ok=True)
+            with open(os.path.join(dp, 'profiles', 'repo_name'), 'w') as f:
+                f.write('x\n')
+            os.makedirs(os.path.join(dp, '.svn'), exist_ok=True)
     for li, (kind, ign) in enumerate(levels):
         if kind == 'none':
             continue
